@@ -11,9 +11,10 @@ PARTS = {1: ['array', 'array_ic4', 'segarray'],
          8: ['hmmap'],
          4: ['tset_n4', 'tset_n4i', 'tset_n32'],
          5: ['tmap_n4', 'tmap_n4_xc'],
-         7: ['tmap_n32']}
-NOPS = {'hmap_limp4_xc': 30, 'tmap_n4_xc': 36, 'array': 28, 'array_ic4': 28, 'segarray': 40, 'hset_limp4': 34, 'hset_open8': 34, 'hset_limp': 34, 'hmap_limp4': 30,
-        'hmap_open8': 30, 'hmmap': 30, 'tset_n4': 40, 'tset_n4i': 40, 'tset_n32': 70, 'tmap_n4': 36, 'tmap_n32': 70}
+         7: ['tmap_n32'],
+         9: ['hset_openn1_1', 'hset_openn1_3', 'hset_openn1_7', 'hset_open8r']}
+NOPS = {'hset_openn1_1': 38, 'hset_openn1_3': 38, 'hset_openn1_7': 40, 'hset_open8r': 40, 'hmap_limp4_xc': 38, 'tmap_n4_xc': 36, 'array': 28, 'array_ic4': 28, 'segarray': 40, 'hset_limp4': 40, 'hset_open8': 40, 'hset_limp': 40, 'hmap_limp4': 38,
+        'hmap_open8': 38, 'hmmap': 30, 'tset_n4': 40, 'tset_n4i': 40, 'tset_n32': 70, 'tmap_n4': 36, 'tmap_n32': 70}
 # no known findings on the current tree.  (Until b307610 the *_xc configurations - momo's DEFAULT extraCheckMode = assertion - aborted
 # when a functor threw inside the post-insertion self check pvExtraCheck; now they are plain positive tests: the operation completes.)
 KNOWN_KEYS = []
@@ -47,6 +48,10 @@ def micro_cases(ctx):
                         cases.append('noderemove N %d %d %d' % (n, k, index))
         for k in range(-1, 6):                     # real HashSet<LimP4>::Insert into a set without buckets (pvAddGrow, !hasBuckets)
             cases.append('hashfirst %s 1 %d' % (c, k))
+        for kind, cap in (('n1', 4), ('n1r', 4), ('o2', 3)):   # real BucketOpenN1<4> (both orientations) / BucketOpen2N2<3> ::AddCrt
+            for n in range(0, cap):                # incl. the bucket holding maxCount - 1 items (count byte = last short hash)
+                for k in (-1, 0, 1):
+                    cases.append('openadd %s %d %d %s' % (c, n, k, kind))
         for n in range(1, 4):                      # real BucketLimP4::AddCrt into a block with a free slot
             for k in (-1, 0, 1):
                 cases.append('bucketadd %s %d %d' % (c, n, k))
@@ -73,7 +78,7 @@ def oracle_cases(ctx, scale):
             cats = 'NCTXY' if cfg in ('hmap_limp4', 'hmap_open8', 'hmmap', 'tmap_n4', 'tmap_n32') else 'NCT'
             for c in cats:
                 for i in range(per):
-                    nops = NOPS[cfg] if i % 3 else max(6, NOPS[cfg] // 2)
+                    nops = NOPS[cfg] if (i % 3 or cfg.startswith('h')) else max(6, NOPS[cfg] // 2)
                     out.append((part, '%s %s %s %d %d' % (cfg, c, mode, r.below(10 ** 9), nops)))
     return out
 
